@@ -39,7 +39,8 @@ pub fn gen(rng: &mut Rng) -> Scn {
     let window = rng.below(3) as u8;
     let limit = rng.range(1, 4) as u32;
     let p = *rng.pick(&[20u64, 50]);
-    let timeout_ms = *rng.pick(&[0, p / 2, p, p, 3 * p / 2, 3 * p]);
+    // u64::MAX stands for Duration::MAX ("wait as long as it takes")
+    let timeout_ms = *rng.pick(&[0, 0, p / 2, p / 2, p, p, p, 3 * p / 2, 3 * p / 2, 3 * p, 3 * p, u64::MAX]);
     let n = rng.range(2, 12) as usize;
     let faulty = rng.chance(1, 2);
     let mut callers = vec![];
@@ -64,7 +65,7 @@ pub fn gen(rng: &mut Rng) -> Scn {
     // idle gap then a burst of limit (+1) callers
     if rng.chance(2, 3) {
         let last = callers.iter().map(|c| c.start_ms).max().unwrap_or(0);
-        let t2 = last + timeout_ms + 3 * p + *rng.pick(&[0u64, 1, 7]);
+        let t2 = last + if timeout_ms == u64::MAX { 20 * p } else { timeout_ms } + 3 * p + *rng.pick(&[0u64, 1, 7]);
         let extra = limit + rng.below(2) as u32;
         for _ in 0..extra {
             callers.push(Caller { start_ms: t2, lat_ms: 0, err: false, cancel: CancelSpec::Never });
@@ -87,7 +88,7 @@ pub fn valid(s: &Scn) -> bool {
         && s.limit <= 6
         && s.period_ms >= 5
         && s.period_ms <= 100
-        && s.timeout_ms <= 400
+        && (s.timeout_ms <= 400 || s.timeout_ms == u64::MAX)
         && !s.callers.is_empty()
         && s.callers.len() <= 20
         && s.callers.iter().all(|c| c.start_ms <= 2000 && c.lat_ms <= 50)
@@ -135,7 +136,7 @@ pub fn partition_feasible(a: &[u64], l: usize, p: u64) -> bool {
 pub fn run(s: &Scn, ctx: &mut RunCtx, prefix: &'static str) -> RunOutput {
     world::reset();
     let last = s.callers.iter().map(|c| c.start_ms).max().unwrap_or(0);
-    let cfg = s.knobs.cfg(ctx, last + 10 * s.period_ms + s.timeout_ms + 2000, 0);
+    let cfg = s.knobs.cfg(ctx, last + 10 * s.period_ms + if s.timeout_ms == u64::MAX { 30 * s.period_ms } else { s.timeout_ms } + 2000, 0);
     let scn = s.clone();
     let setup = move || {
         world::with(|w| {
@@ -149,7 +150,7 @@ pub fn run(s: &Scn, ctx: &mut RunCtx, prefix: &'static str) -> RunOutput {
         let mut b = RateLimiterLayer::builder()
             .limit_for_period(scn.limit as usize)
             .refresh_period(Duration::from_millis(scn.period_ms))
-            .timeout_duration(Duration::from_millis(scn.timeout_ms))
+            .timeout_duration(if scn.timeout_ms == u64::MAX { Duration::MAX } else { Duration::from_millis(scn.timeout_ms) })
             .window_type(match scn.window {
                 0 => WindowType::Fixed,
                 1 => WindowType::SlidingLog,
@@ -198,7 +199,7 @@ pub fn run(s: &Scn, ctx: &mut RunCtx, prefix: &'static str) -> RunOutput {
     let jump = s.knobs.total_jump() * 1000;
     let p = s.period_ms * 1000;
     let l = s.limit as usize;
-    let tout = s.timeout_ms * 1000;
+    let tout = s.timeout_ms.saturating_mul(1000);
     // admissions in order
     let adm: Vec<u64> = calls.iter().map(|c| c.start_us).collect();
     let waited_admission = calls.iter().any(|c| {
@@ -269,7 +270,7 @@ pub fn run(s: &Scn, ctx: &mut RunCtx, prefix: &'static str) -> RunOutput {
                 any_waited = true;
                 world::probe("admitted_after_waiting");
             }
-            if m.start_us > a + tout + slack {
+            if m.start_us > a.saturating_add(tout).saturating_add(slack) {
                 world::violation("C15.decided_by", "admitted_late", format!("caller {} arrived {}us, admitted {}us, timeout {}us", i, a, m.start_us, tout));
             }
         }
@@ -360,7 +361,7 @@ pub fn run(s: &Scn, ctx: &mut RunCtx, prefix: &'static str) -> RunOutput {
                     if !mine.is_empty() {
                         world::violation("C15.rejected_never_inner", "", format!("rejected caller {} reached the inner service", i));
                     }
-                    if t.end_us > a + tout + slack {
+                    if t.end_us > a.saturating_add(tout).saturating_add(slack) {
                         world::violation("C15.decided_by", "rejected_late", format!("caller {} arrived {}us, rejected {}us, timeout {}us", i, a, t.end_us, tout));
                     }
                 } else if mine.is_empty() {
